@@ -83,9 +83,21 @@ ASSUMPTIONS = [
     'A1 for from_model uses the (T_ref, H_ref, S_ref) that from_model handed to from_data (probe '
     'snapshot) and additionally requires that they are the model values at a T_ref inside the '
     'window; without the probe the conventional T_ref (window midpoint, T_low for NASA-9) is used',
-    'A5(i) compares RMS errors on the fitting grid with the better-informed of two yardsticks '
-    '(unweighted and T^2-weighted independent least squares, the latter because NASA-9 is fitted '
-    'to Cp*T^2); a degenerate (all |Cp/R|<=1e-8) StatMech source only gets A1-A3 and A5',
+    'A5(i) compares RMS and maximum errors on the fitting grid with the more lenient of two '
+    'yardsticks (unweighted and, for NASA-9, T^2-weighted independent least squares, because '
+    'NASA-9 is fitted to Cp*T^2): rms <= 10*ref + floor, max <= max(0.5, 10*ref_max); data points '
+    'lying exactly on a break are left out of both (fitted with the lower, evaluated with the '
+    'upper interval); when the test fails it is repeated without the lowest data temperature to '
+    'tell a fit that ignores that point (mech culprit=T_low_point) from a bad fit (culprit=grid); '
+    'a degenerate (all |Cp/R|<=1e-8) StatMech source only gets A1-A3 and A5',
+    'A5(ii) is evaluated in difference form, T*dH(T) - T_ref*dH(T_ref) = int dCp dT (ditto S), so '
+    'that a wrong anchor (A1) is not reported a second time; the integral is split at every '
+    'break and at every check point (Gauss-Legendre 16/32, panels T ratio <= 1.25), tolerance '
+    '1e-6*(max(1,|int|) + 1e-6*sum|end-point terms|)',
+    'tolerances A1/A2 1e-8 (5e-15 observed on correct code), A4 1e-6 (2e-10 observed), A5(ii) '
+    '1e-6 (1e-10 observed); for Shomate on windows with T_high/T_low < 1.2 A4, the A5 rms floor '
+    'and A5(ii) are 1e-4 because its Levenberg-Marquardt Cp fit honestly loses precision there '
+    '(2e-7 / 1e-7 observed for 1.05 <= ratio < 1.2); mech win=narrow|mid|wide records the class',
     'Nelder-Mead optimisation of NASA-9 breaks (fit_T_mid=True) is exercised rarely and with '
     'n_T<=30 in the quick tier (cost); its result is only required to satisfy A1-A5',
 ]
@@ -691,8 +703,16 @@ def run_case(spec, ctx):
     # ---------------- data
     if ctor == 'from_data':
         T = grid(spec)
-        ctx.cls('grid:unsorted' if spec['grid'].get('shuffle') else 'grid:sorted')
         Cp = np.array([src.cp(float(t)) for t in T])
+        shuffled = bool(spec['grid'].get('shuffle'))
+        if shuffled and bool(np.all(np.abs(Cp) <= 1e-8)):
+            # zero-Cp data are only handed over in ascending order (ASSUMPTIONS): the degenerate
+            # path of Nasa takes T_mid by position
+            order = np.argsort(T)
+            T, Cp, shuffled = T[order], Cp[order], False
+            ctx.extra['degenerate_data_sorted_before_use'] = \
+                ctx.extra.get('degenerate_data_sorted_before_use', 0) + 1
+        ctx.cls('grid:unsorted' if shuffled else 'grid:sorted')
         T_ref = float(spec['T_ref'])
         ref = (T_ref, src.H(T_ref), src.S(T_ref))
     else:
@@ -771,8 +791,8 @@ def run_case(spec, ctx):
 
     # ---------------- A3 bounds and breaks
     m3 = dict(mech)
-    ctx.close('A3', [float(obj.T_low), float(obj.T_high)], [float(np.min(T)), float(np.max(T))], TOL_A3,
-              dict(m3, what='T_low/T_high=span(T)'))
+    span_ok = ctx.close('A3', [float(obj.T_low), float(obj.T_high)], [float(np.min(T)), float(np.max(T))],
+                        TOL_A3, dict(m3, what='T_low/T_high=span(T)'))
     if ctor == 'from_model':
         ctx.close('A3', [float(obj.T_low), float(obj.T_high)], [lo, hi], TOL_A3,
                   dict(m3, what='T_low/T_high=requested'))
@@ -796,8 +816,8 @@ def run_case(spec, ctx):
         cands = [tm_spec] if mode == 'scalar' else (tm_spec if mode == 'list' else list(np.sort(T)[5:-5]))
         ctx.extra['nasa_T_mid_not_a_candidate'] = ctx.extra.get('nasa_T_mid_not_a_candidate', 0) + \
             (0 if any(abs(breaks[0] - c) < 1e-9 for c in cands) else 1)
-    if not all(edges[i] < edges[i + 1] for i in range(len(edges) - 1)):
-        return
+    if not span_ok or not all(edges[i] < edges[i + 1] for i in range(len(edges) - 1)):
+        return                      # the remaining oracles presuppose a well-formed window
     # ---------------- A1 anchor
     h = g('HoRT', T_ref, 'A1', mech)
     s = g('SoR', T_ref, 'A1', mech)
